@@ -62,7 +62,8 @@ Definition C20_flags_stmt : Prop :=
   forall f : bool, (g_elbow_chain f = true <-> f = false)       (* source sketch is not a Disk *)
                 /\ (g_mesh_grade f = true <-> f = false)         (* mesh not assembled *)
                 /\ (g_mesh_backport f = true <-> f = false)
-                /\ (g_junction_add_clamp f = true <-> f = true). (* junction already has a clamp *)
+                /\ (g_junction_add_clamp f = true <-> f = true)  (* junction already has a clamp *)
+                /\ (g_shell_chop f = true <-> f = true).         (* a face of the shell touches no other face *)
 
 (** ** behaviour of the real calls over the whole probed index domain (explicit and implicit guards) *)
 Definition zrange (lo : Z) (n : nat) : list Z := map (fun i => (lo + Z.of_nat i)%Z) (seq 0 n).
@@ -115,10 +116,37 @@ Definition C20_clamps_links_stmt : Prop :=
   (forall h, NoDup (g_state_after [] h))
   /\ (forall s p, g_step s (GClamp p) = None <-> (p = None \/ exists j, p = Some j /\ In j s))
   /\ (forall s l f, g_step s (GLink l f) = None <-> (l = None \/ f = None \/ l = f)).
-(* every accepted constructor / add_label leaves one or two labels *)
+(* the labels kept by a projected edge are the distinct surfaces named so far, and a constructor /
+   add_label call is accepted exactly when there are one or two of them *)
 Definition C20_labels_stmt : Prop :=
-  forall have h k, nth_error (l_run have h) k = Some true ->
-    exists l, (1 <= length l <= 2)%nat /\ l = fold_left l_union (firstn (S k) h) have.
+  forall have h k b, NoDup have -> nth_error (l_run have h) k = Some b ->
+    let l := fold_left l_union (firstn (S k) h) have in
+    NoDup l
+    /\ (forall x, In x l <-> In x have \/ exists new, In new (firstn (S k) h) /\ In x new)
+    /\ (b = true <-> (1 <= length l <= 2)%nat).
+
+(** ** the two ties agree: on the whole probed domain the real call is accepted exactly when the guard
+    taken from the source text does not fire (and, for corner pairs, the pair is an edge of the
+    hexahedron, which the code decides by a lookup) *)
+Definition guard_tab_ok (g : Z -> bool) (tab : list (Z * bool)) : bool :=
+  forallb (fun x => Bool.eqb (snd x) (negb (g (fst x)))) tab.
+Definition guard_pair_tab_ok (g : Z -> Z -> bool) (tab : list (Z * Z * bool)) : bool :=
+  forallb (fun x => Bool.eqb (snd x) (negb (g (fst (fst x)) (snd (fst x))) && hex_edge_z (fst (fst x)) (snd (fst x)))) tab.
+Definition guard_shape_tab_ok (g : list Z -> bool) (tab : list (list Z * bool)) : bool :=
+  forallb (fun x => Bool.eqb (snd x) (negb (g (fst x)))) tab.
+Definition C20_guard_tab_agree_stmt : Prop :=
+  (forall c ok, In (c, ok) tab_face_add_edge -> ok = negb (g_face_add_edge c))
+  /\ (forall c ok, In (c, ok) tab_add_side_edge -> ok = negb (g_add_side_edge c))
+  /\ (forall c ok, In (c, ok) tab_project_corner -> ok = negb (g_project_corner c))
+  /\ (forall a b ok, In (a, b, ok) tab_project_edge -> ok = negb (g_project_edge a b) && hex_edge_z a b)
+  /\ (forall a b ok, In (a, b, ok) tab_block_add_edge -> ok = negb (g_block_add_edge a b) && hex_edge_z a b)
+  /\ (forall n ok, In (n, ok) tab_label_count -> ok = negb (g_label_count n))
+  /\ (forall n ok, In (n, ok) tab_face_edges -> ok = negb (g_face_edges true n))
+  /\ (forall n ok, In (n, ok) tab_side_vertices -> ok = negb (g_side_vertices n))
+  /\ (forall n ok, In (n, ok) tab_from_series -> ok = negb (g_from_series n))
+  /\ (forall n ok, In (n, ok) tab_cylinder_fill -> ok = negb (g_cylinder_fill n))
+  /\ (forall s ok, In (s, ok) tab_point_shape -> ok = negb (g_point_shape s))
+  /\ (forall s ok, In (s, ok) tab_face_points -> ok = negb (g_face_points s)).
 
 (** ** proofs *)
 Ltac unfold_guards :=
@@ -126,7 +154,7 @@ Ltac unfold_guards :=
     g_cylinder_chain, g_frustum_chain, g_ring_chain, g_ring_contract, g_face_add_edge, g_add_side_edge,
     g_project_corner, g_project_edge, g_block_add_edge, g_label_count, g_face_edges, g_side_vertices,
     g_from_series, g_cylinder_fill, g_face_counts, g_point_shape, g_face_points, g_elbow_chain, g_mesh_grade,
-    g_mesh_backport, g_junction_add_clamp,
+    g_mesh_backport, g_junction_add_clamp, g_shell_chop,
     ref_perp, ref_length_ratio, ref_annulus_radii, ref_chain_length, ref_contract, ref_corner4, ref_corner8,
     ref_corner_pair8, ref_label_count, ref_count_is, ref_count_lt, ref_counts_differ, ref_edges_given,
     ref_shape_is, ref_flag_not, ref_flag.
@@ -275,12 +303,45 @@ Proof.
 Qed.
 
 Theorem C20_labels : C20_labels_stmt.
-Proof. exact l_run_sound. Qed.
+Proof.
+  intros have h k b N H l. subst l. split; [|split].
+  - apply fold_l_union_NoDup. exact N.
+  - apply fold_l_union_In.
+  - rewrite (l_run_exact have h k b H). unfold l_ok. rewrite andb_true_iff, !Nat.ltb_lt. lia.
+Qed.
+
+Lemma guard_tab_sound g tab : guard_tab_ok g tab = true -> forall c ok, In (c, ok) tab -> ok = negb (g c).
+Proof.
+  unfold guard_tab_ok. intros H c ok Hin. rewrite forallb_forall in H. specialize (H _ Hin). simpl in H.
+  apply eqb_prop in H. exact H.
+Qed.
+Lemma guard_pair_tab_sound g tab : guard_pair_tab_ok g tab = true ->
+  forall a b ok, In (a, b, ok) tab -> ok = negb (g a b) && hex_edge_z a b.
+Proof.
+  unfold guard_pair_tab_ok. intros H a b ok Hin. rewrite forallb_forall in H. specialize (H _ Hin). simpl in H.
+  apply eqb_prop in H. exact H.
+Qed.
+Lemma guard_shape_tab_sound g tab : guard_shape_tab_ok g tab = true ->
+  forall s ok, In (s, ok) tab -> ok = negb (g s).
+Proof.
+  unfold guard_shape_tab_ok. intros H s ok Hin. rewrite forallb_forall in H. specialize (H _ Hin). simpl in H.
+  apply eqb_prop in H. exact H.
+Qed.
+
+Theorem C20_guard_tab_agree : C20_guard_tab_agree_stmt.
+Proof.
+  repeat split;
+    first [ apply guard_tab_sound; vm_compute; reflexivity
+          | apply guard_pair_tab_sound; vm_compute; reflexivity
+          | apply guard_shape_tab_sound; vm_compute; reflexivity ].
+Qed.
 
 (** the hypotheses used above are satisfiable *)
 Example lifecycle_example : needs_assembly MGrade = true /\ hist_assembled 0 false [MAdd; MAssemble] = true
   /\ m_run m_init [MGrade; MAdd; MAssemble; MGrade; MClear; MBackport] = [false; true; true; true; true; false].
 Proof. repeat split. Qed.
+Example labels_example : NoDup [0; 1]%nat /\ l_run [0; 1]%nat [[1]; [2]; [0]]%nat = [true; false; false].
+Proof. split; [repeat constructor; simpl; intuition discriminate | reflexivity]. Qed.
 Example lean_example : (qdot (1, 0, 0) (0, 1, 0) == 0)%Q.
 Proof. reflexivity. Qed.
 
@@ -308,3 +369,4 @@ Print Assumptions C20_tab_domain.
 Print Assumptions C20_lifecycle.
 Print Assumptions C20_clamps_links.
 Print Assumptions C20_labels.
+Print Assumptions C20_guard_tab_agree.
